@@ -74,7 +74,7 @@ from types import TracebackType
 from typing import BinaryIO
 
 from dulwich.object_format import SHA1
-from dulwich.objects import ObjectID
+from dulwich.objects import ZERO_SHA, ObjectID
 from dulwich.refs import (
     SYMREF,
     Ref,
@@ -1180,8 +1180,11 @@ class ReftableRefsContainer(RefsContainer):
             current = None
 
         # old_ref None means "unconditionally", not "must not exist"
-        if old_ref is not None and current != bytes(old_ref):
-            return False
+        if old_ref is not None:
+            # like the other backends: the zero id stands for "does not exist"
+            expected = None if old_ref == ZERO_SHA else bytes(old_ref)
+            if current != expected:
+                return False
 
         # Update ref
         self._write_ref_update(bytes(name), REF_VALUE_REF, bytes(new_ref))
@@ -1223,8 +1226,11 @@ class ReftableRefsContainer(RefsContainer):
             current = None
 
         # old_ref None means "unconditionally", not "must not exist"
-        if old_ref is not None and current != bytes(old_ref):
-            return False
+        if old_ref is not None:
+            # like the other backends: the zero id stands for "does not exist"
+            expected = None if old_ref == ZERO_SHA else bytes(old_ref)
+            if current != expected:
+                return False
 
         self._write_ref_update(bytes(name), REF_VALUE_DELETE, b"")
         return True
